@@ -257,6 +257,17 @@ def c13_torch(run, Nmax=2, count=12, circuits=30):
                 break
         if not ent:
             b.fail('random_clifford_entangles', 'torch random_clifford(2) returned only product Cliffords in 60 draws', {})
+        # ... and every draw must be the table of a Clifford map (canonical commutation relations), as in pyclifford
+        import pyclifford.utils as pu_
+        for k_ in range(40):
+            Nk = 1 + k_ % 4
+            gk = np.asarray(n(tu.random_clifford(Nk))).astype(np.int64)
+            want = np.zeros((2 * Nk, 2 * Nk), dtype=np.int64)
+            for a_ in range(2 * Nk):
+                want[a_, a_ + 1 if a_ % 2 == 0 else a_ - 1] = 1
+            if gk.shape != (2 * Nk, 2 * Nk) or not np.isin(gk, (0, 1)).all() or not np.array_equal(np.asarray(pu_.acq_mat(gk)) % 2, want):
+                b.fail('random_clifford_valid', 'torch random_clifford(%d) returned a table without the canonical commutation relations' % Nk, {'gs': gk.tolist()})
+                break
     except Exception as e:
         b.fail('random_clifford.raises', repr(e)[:200], {})
     return b.result()
